@@ -235,7 +235,11 @@ class _LayoutBase(Prop):
         "every tag carries a unique i=\"<id>\" attribute and every leaf a delimited id payload (private-use delimiters) so "
         "that a regular-expression scanner can attribute each piece of output to a node; the scanner maps eol strings "
         "and two-space units to layout tokens and anything else to a junk token",
-        "eol strings are drawn from {LF, CRLF, a private-use marker, the empty string}",
+        "eol strings are drawn from {LF, CRLF, LF LF, ' | ', TAB, a private-use marker, the empty string}; content may hold bare "
+        "line feeds (token nl) and may begin or end with line breaks and spaces (pre / tail tokens)",
+        "gamma options (chosen by the case's salt): metadata inserted after construction or displayed inside a with-block, a run "
+        "of siblings handed over as one tagifiable, the same child object placed twice, and the reuse mode (render, change "
+        "through the public API, render again: the last rendering is judged against the tree as it is then)",
     ]
     EOLS = ["\n", "", "\r\n", "\ue003", "\n\n", " | ", "\t"]
 
@@ -407,7 +411,7 @@ class C05(_LayoutBase):
     id = "C05"
     design_ref = "DESIGN.md section 3, C05"
     rule = ("every ordered tree / top-level list up to the bound over {block, inline, void block, void inline, text, "
-            "HTML(), _repr_html_, metadata} (TLC-enumerated, including block-inside-inline) rendered with several "
+            "HTML(), _repr_html_, metadata, empty string} (TLC-enumerated, including block-inside-inline) rendered with several "
             "indent/eol/add_ws settings, plus seeded random trees up to 60 nodes and depth 8.  Non-trivial: the tree "
             "has at least one inline tag or leaf next to another node.")
 
